@@ -237,7 +237,8 @@ theorem rules_plain {c : Codec} (L : CodecLaws c) (r : Rules) (h : r.rules.all r
   simp only [List.all_eq_true] at h
   simp only [rulesNode, treePlain, Bool.and_eq_true]
   refine ⟨attrsPlain_mk _ ?_, treesPlain_map _ _ (fun x hx => rule_plain L x (h x hx))⟩
-  cases r.processing <;> simp [showProcessing] <;> decide
+  have : attrPlain (showProcessing r.processing) = true := by cases r.processing <;> decide
+  simp [this]
 
 theorem source_plain {c : Codec} (L : CodecLaws c) (s : Source) (h : sourceXml s = true) :
     treePlain (sourceNode c s) = true := by
@@ -251,15 +252,15 @@ theorem pv_plain {c : Codec} (L : CodecLaws c) : ∀ (v : PV) (t : Tree), pvXml 
     serializeWithin c v = .ok t → treePlain t = true
   | .str s, t, h, e => by
     simp only [pvXml] at h
-    simp only [serializeWithin, valueInner, Out.map, Out.ok.injEq] at e
+    simp only [serializeWithin, leafInner, Out.map, Out.ok.injEq] at e
     subst e; by_cases hs : s = "" <;> simp [treePlain, treesPlain, attrsPlain, hs, h]
   | .int i, t, _, e => by
-    simp only [serializeWithin, valueInner, Out.map, Out.ok.injEq] at e
+    simp only [serializeWithin, leafInner, Out.map, Out.ok.injEq] at e
     subst e
     by_cases hs : c.showInt i = "" <;>
       simp [treePlain, treesPlain, attrsPlain, hs, textPlain_of_safe _ (L.int_safe i)]
   | .real r, t, _, e => by
-    simp only [serializeWithin, valueInner, Out.map, Out.ok.injEq] at e
+    simp only [serializeWithin, leafInner, Out.map, Out.ok.injEq] at e
     subst e
     by_cases hs : c.showF64 r = "" <;>
       simp [treePlain, treesPlain, attrsPlain, hs, textPlain_of_safe _ (L.f64_safe r)]
@@ -268,15 +269,15 @@ theorem pv_plain {c : Codec} (L : CodecLaws c) : ∀ (v : PV) (t : Tree), pvXml 
   | .bool false, t, _, e => by
     simp only [serializeWithin, Out.ok.injEq] at e; subst e; rfl
   | .data d, t, _, e => by
-    simp only [serializeWithin, valueInner, Out.map, Out.ok.injEq] at e
+    simp only [serializeWithin, leafInner, Out.map, Out.ok.injEq] at e
     subst e
     by_cases hs : c.encData d = "" <;>
       simp [treePlain, treesPlain, attrsPlain, hs, textPlain_of_safe _ (L.data_safe d)]
   | .date d, t, _, e => by
     cases hd : c.showDate d with
-    | none => simp [serializeWithin, valueInner, Out.map, hd] at e
+    | none => simp [serializeWithin, leafInner, Out.map, hd] at e
     | some s =>
-      simp only [serializeWithin, valueInner, Out.map, hd, Out.ok.injEq] at e
+      simp only [serializeWithin, leafInner, Out.map, hd, Out.ok.injEq] at e
       subst e
       by_cases hs : s = "" <;>
         simp [treePlain, treesPlain, attrsPlain, hs, textPlain_of_safe _ (L.date_safe d s hd)]
